@@ -1,5 +1,84 @@
-(** C10 -- stub while the pipeline is brought up *)
-From TLV Require Import Reg.RegBytesModel.
-Theorem C10_stub : to_slice [] = [].
-Proof. reflexivity. Qed.
-Print Assumptions C10_stub.
+(** C10 -- []byte variants (--generateByteVersions) behave like the string variants.
+    Property theorems only.  Model: coq/theories/Reg/RegBytesModel.v.  On the wire a []byte is a string, so
+    the only representation-dependent construct is the dictionary: the string variant keeps a Go map (the
+    reader inserts, the LAST duplicate wins; the writer sorts by key: [TDict] of Tl1Model.v), the bytes variant
+    keeps a slice of entries (order and duplicates preserved: a vector).  The bytes variant of type [t] of
+    schema [s] is therefore [t] read in [to_slice s]; [norm s t v] is the content the map-backed variant holds
+    for the content [v] of the slice-backed one (every dictionary, at any depth, sorted and de-duplicated). *)
+From TLV Require Import Prim.PrimModel Tl1.Tl1Model Tl1.Tl1Proofs Reg.RegBytesModel Reg.RegBytesProofs.
+Open Scope N_scope.
+
+(** Same content, same bytes: whatever the string variant writes (its dictionaries are sorted and duplicate
+    free by construction) the bytes variant holding that content writes identically.  All schemas, all types,
+    all values, bare and boxed, with and without the length-sanity option. *)
+Theorem C10_same_content_same_encoding : forall san s v t bare ps b,
+  enc1 san s t bare ps v = Some b -> enc1 san (to_slice s) t bare ps v = Some b.
+Proof. intros san s. exact (enc_slice_eq san s). Qed.
+Print Assumptions C10_same_content_same_encoding.
+
+(** Same input, equal content modulo sort + dedup: whenever the bytes variant accepts an input, the string
+    variant accepts it too, consumes the same bytes, and holds the normalised content. *)
+Theorem C10_decode_equal_modulo_sort_dedup : forall san s fuel t bare ps b v r,
+  dec1 fuel san (to_slice s) t bare ps b = Some (Ok (v, r)) ->
+  dec1 fuel san s t bare ps b = Some (Ok (norm s t v, r)).
+Proof. intros san s. exact (dec_map_vs_slice san s). Qed.
+Print Assumptions C10_decode_equal_modulo_sort_dedup.
+
+(** ... and when the dictionaries of the input are sorted and duplicate free the content is simply equal. *)
+Theorem C10_sorted_content_is_equal : forall s v t, dicts_sorted s t v = true -> norm s t v = v.
+Proof. exact norm_sorted_id. Qed.
+Print Assumptions C10_sorted_content_is_equal.
+
+Theorem C10_decode_sorted_input_equal : forall san s fuel t bare ps b v r,
+  dec1 fuel san (to_slice s) t bare ps b = Some (Ok (v, r)) -> dicts_sorted s t v = true ->
+  dec1 fuel san s t bare ps b = Some (Ok (v, r)).
+Proof.
+  intros san s fuel t bare ps b v r H Hs. rewrite <- (norm_sorted_id s v t Hs) at 1.
+  now apply dec_map_vs_slice.
+Qed.
+Print Assumptions C10_decode_sorted_input_equal.
+
+(** one dictionary: the map holds [sort_dedup] of what the slice holds; sorted content is a fixed point *)
+Theorem C10_dictionary_content : forall s t kp ef es,
+  nth_error s t = Some (TDict kp ef) ->
+  norm s t (VArr es) = VArr (sort_dedup kp (map (norm s (f_ty ef)) es)).
+Proof. intros s t kp ef es H. cbn [norm]. now rewrite H. Qed.
+Print Assumptions C10_dictionary_content.
+
+Theorem C10_sort_dedup_fixes_sorted : forall kp es, keys_sorted kp es = true -> sort_dedup kp es = es.
+Proof. exact sort_dedup_sorted. Qed.
+Print Assumptions C10_sort_dedup_fixes_sorted.
+
+(** Across the variants: what the string variant writes, the bytes variant reads back as the same content
+    (with C01 for the bytes-variant schema, which is well formed when the schema is). *)
+Theorem C10_cross_roundtrip : forall san s, wf_schema s = true ->
+  forall v fuel t bare ps b rest, (vdepth v <= fuel)%nat ->
+  enc1 san s t bare ps v = Some b ->
+  dec1 fuel san (to_slice s) t bare ps (b ++ rest) = Some (Ok (v, rest)).
+Proof. exact cross_roundtrip. Qed.
+Print Assumptions C10_cross_roundtrip.
+
+(** Non-vacuity: a dictionary string -> # inside a struct; an input with unsorted and repeated keys. *)
+Definition ex_schema : schema :=
+  [ TPrim PNat; TPrim PString;
+    TStruct 31 [mkField 1 true None []; mkField 0 true None []];       (* 2: key:string value:# *)
+    TDict PString (mkField 2 true None []);                            (* 3 *)
+    TStruct 41 [mkField 3 true None []] ].                             (* 4 *)
+Definition ent (k : N) (v : N) : value := VStruct [Some (VStr [k]); Some (VNum v)].
+Definition ex_unsorted : value := VStruct [Some (VArr [ent 98 1; ent 97 2; ent 98 3])].
+Definition ex_sorted : value := VStruct [Some (VArr [ent 97 2; ent 98 3])].
+
+Example C10_ex_norm : norm ex_schema 4 ex_unsorted = ex_sorted /\ dicts_sorted ex_schema 4 ex_sorted = true
+                      /\ dicts_sorted ex_schema 4 ex_unsorted = false.
+Proof. vm_compute. repeat split; reflexivity. Qed.
+
+Example C10_ex_variants :
+  match enc1 true (to_slice ex_schema) 4 false [] ex_unsorted with
+  | Some b =>
+      enc1 true ex_schema 4 false [] ex_unsorted = None /\                       (* a map cannot hold it *)
+      dec1 20 true (to_slice ex_schema) 4 false [] b = Some (Ok (ex_unsorted, [])) /\
+      dec1 20 true ex_schema 4 false [] b = Some (Ok (ex_sorted, [])) /\
+      enc1 true ex_schema 4 false [] ex_sorted = enc1 true (to_slice ex_schema) 4 false [] ex_sorted
+  | None => False
+  end.
+Proof. vm_compute. repeat split; reflexivity. Qed.
